@@ -46,10 +46,12 @@ func vC43_producer() {
 	var msg any
 	authentic := false // a Request/Ack from the registered consumer controller under the current session and nonce
 	var reqConfirmed, reqUpTo int64
+	regNonce := ""
 	kind := vChoose("kind", 7)
 	switch kind {
 	case 0:
-		m, err := commands.VRegisterConsumer(vRD_str2("nonceIsCurrent", "N", "N2"))
+		regNonce = vRD_str2("nonceIsCurrent", "N", "N2")
+		m, err := commands.VRegisterConsumer(regNonce)
 		vAssume(err == nil)
 		msg = m
 		switch vChoose("resolved", 3) {
@@ -108,6 +110,18 @@ func vC43_producer() {
 			vAssert(kind == 0 || kind == 6, "only a Request, a registration change or the consumer controller's death change demandUpTo")
 			vAssert(x.demandUpTo == x.currentSeq, "a registration change resets demand to currentSeq (no emission is authorised by a dead grant)")
 			vCover("demand-reset")
+		}
+	}
+	// ---- a new registration generation (verified sender that is a new controller OR brings a fresh nonce) and the death of
+	// the registered consumer controller void every earlier grant: demand falls back to currentSeq
+	if kind == 0 && vRD_resolvedErr == nil && vRD_resolved == sender {
+		if preCC == nil || preCC != sender || preNonce != regNonce {
+			vAssert(x.failed || (x.demandUpTo == x.currentSeq && x.consumerController == sender && x.registrationNonce == regNonce),
+				"a verified registration by a new controller or under a fresh nonce starts a new generation: demandUpTo = currentSeq, the grants of the dead generation authorise nothing")
+			vCover("new-generation")
+		} else {
+			vAssert(x.demandUpTo == preDemand, "an idempotent re-registration (same controller, same nonce) keeps the granted demand")
+			vCover("registration-ping")
 		}
 	}
 	// ---- the handshake only opens (credit to the producer) under free demand
